@@ -8,7 +8,7 @@ _pkg = types.ModuleType("eolib")
 _pkg.__path__ = [os.path.join(_repo, "src", "eolib")]
 sys.modules.setdefault("eolib", _pkg)
 from eolib.packet.packet_sequencer import PacketSequencer  # noqa: E402
-from eolib.packet.sequence_start import SimpleSequenceStart  # noqa: E402
+from eolib.packet.sequence_start import AccountReplySequenceStart  # noqa: E402
 
 
 def nth_sequence(start: int, new_start: int, k: int, update_at: int) -> bool:
@@ -16,12 +16,12 @@ def nth_sequence(start: int, new_start: int, k: int, update_at: int) -> bool:
     pre: 0 <= k <= 24 and 0 <= update_at <= k
     post: _
     """
-    q = PacketSequencer(SimpleSequenceStart(start))
+    q = PacketSequencer(AccountReplySequenceStart.from_value(start))
     cur = start
     ok = True
     for i in range(k):
         if i == update_at:
-            q.set_sequence_start(SimpleSequenceStart(new_start))
+            q.set_sequence_start(AccountReplySequenceStart.from_value(new_start))
             cur = new_start
         ok = ok and q.next_sequence() == cur + i % 10
     return ok
